@@ -664,11 +664,18 @@ func (e *Engine) RunPersistCase(p *vreport.Part, c Case) {
 			p.Violation("dump-alters-config what=live-storage field="+KeyPath(a)+" endpoint="+form,
 				fmt.Sprintf("configuration storage shared with the live objects changed during %q issued while persisting: before `%s`, after `%s`", ep.Form, a, b), vc)
 		}
-		// the restart dump produced afterwards, without any request, is the reference again
-		if again := r.restart(); again.canon != base.canon {
+		// the restart dump produced afterwards, without any request, must be the reference again;
+		// whatever it is, it becomes the reference of the next form (one defect, one report)
+		again := r.restart()
+		if again.canon != base.canon {
 			if lost := r.lostKey(live, again.raw); lost != "" {
 				p.Violation("dump-alters-config what=restart-dump-lost-key position="+lost+" endpoint="+form,
 					fmt.Sprintf("after a %q request made while persisting, the next restart dump no longer contains the real private key of position %s", ep.Form, lost), vc)
+			}
+			base = again
+			live = map[string]bool{}
+			for _, id := range Markers(base.raw, "KEY-") {
+				live[id] = true
 			}
 		}
 	}
